@@ -5,12 +5,13 @@
 // env/update_tours_shim.vs (vehicles_after, tours_after, dummies_after, lists_follow, ut_pre …) and
 // env/train_formation_update_shim.vs (tfu_pre, moved_nd, repl_seq, repl_ok, un_sum …).
 // ASSUMPTIONS in this file (listed in the header of slices/fit_reassign.vs): the external_body shims
-// `SeqIter::{enumerate, map_while, filter, last}` (A-iter, std adapters of the same names), `Vec::split_off`
-// (A-std8), the structural `Clone` of Tour (A-derive, axiom on the derived impl).  Everything else is an open spec
-// function or a proved lemma.
+// `SeqIter::{enumerate, map_while, last}` (A-iter, std adapters of the same names) and the axiom `axiom_into_items_vec`
+// (A-iter, `Vec::extend(Vec<T>)`).  Everything else is an open spec function or a proved lemma.  (The structural `Clone`
+// of Tour, A-derive, sits in the slice next to the copied text of env/solution_types.vs.)
+// No text is copied from other shims: everything needed is reached through the includes above.
 
 // =====================================================================================================
-// ASSUMPTIONS (A-iter / A-std8 / A-derive), listed in the header of slices/fit_reassign.vs
+// ASSUMPTIONS (A-iter), listed in the header of slices/fit_reassign.vs
 // =====================================================================================================
 impl<T> SeqIter<T> {
     /// std `Iterator::enumerate`: "Creates an iterator which gives the current iteration count as well as the next value."
